@@ -667,7 +667,8 @@ func gen(args []string) {
 	}
 	// fixed socket scenarios (few: they cost real seconds and depend on the OS)
 	socks := []string{"sock graphite up", "sock statsd-tcp up", "sock statsd-udp up", "sock graphite downup", "sock statsd-tcp down-cancel",
-		"sock graphite down-shutdown", "sock graphite precancel", "sock statsd-tcp precancel", "sock graphite down-cancel", "sock statsd-tcp downup", "sock statsd-tcp down-shutdown", "sock statsd-udp precancel"}
+		"sock graphite down-shutdown", "sock graphite precancel", "sock statsd-tcp precancel", "sock graphite down-cancel", "sock statsd-tcp downup", "sock statsd-tcp down-shutdown", "sock statsd-udp precancel",
+		"sock statsd-udp big", "sock graphite big", "sock statsd-tcp big"}
 	ns := 8
 	if tier == "thorough" {
 		ns = len(socks)
